@@ -6,11 +6,14 @@
 (* and "recovered" (projection of the store reopened from that image, or the     *)
 (* error reopening gave).                                                        *)
 (*                                                                               *)
+(* The "op" events drive the Store.tla actions: the state after every prefix of   *)
+(* the history is the model's, whatever the live store showed.                   *)
 (* The spec decides from the journal positions which operations had returned     *)
 (* (je <= p) and whether one was in flight (jb < p < je), sets ackd / infl of    *)
 (* StoreCrash accordingly and accepts a "recovered" event only if the recovered  *)
 (* tables satisfy StoreCrash!RecoveredOK - the predicate CrashSafe demands of    *)
-(* every crash in the model - and every other query of the projection agrees;    *)
+(* every crash in the model, with ackd / infl the MODEL states after those        *)
+(* prefixes - and every other query of the projection agrees with the tables;    *)
 (* a "recovered" event that fails is reported as <<"REJECTED", position>>.       *)
 (* The medium variables (file, cache, plan, txc, root) are not observable and    *)
 (* stay at their initial values.                                                 *)
@@ -56,15 +59,28 @@ QueriesAgree(st, g) ==
 NOps       == Len(hist) - 1
 Acked(p)   == MaxOf({i \in 0..NOps : hist[i + 1].je <= p})
 InFlight(p) == Acked(p) < NOps /\ hist[Acked(p) + 2].jb < p
-StAfter(i) == hist[i + 1].st
-
+(* ---- the operations: the state after a prefix is what Store.tla says it is ---- *)
+\* Every "op" event drives the Store action it names on the abstract state; whether an operation
+\* succeeds and what it changes is decided here, not read from the implementation.  The state after
+\* each operation (habs) is what crash images are later compared with.  That the live store showed
+\* the same state and result class is checked too and reported as <<"OPDIFF", position>> (conformance
+\* of the running store is C19/C20's subject; for C22 it explains a later rejected image).
+Batch(ids) == [i \in 1..Len(ids) |-> D[ids[i]]]
+ModelOp ==
+    \/ Ev.op = "init"   /\ UNCHANGED vars
+    \/ Ev.op = "insert" /\ (\A i \in DOMAIN Ev.b : Ev.b[i] \in 1..Len(D)) /\ Insert(Batch(Ev.b))
+    \/ Ev.op = "remove" /\ RemoveHeight(Ev.h)
+    \/ Ev.op = "mark"   /\ MarkSampled(Ev.h)
+    \/ Ev.op = "meta"   /\ UpdateMeta(Ev.h, ToSetOf(Ev.cs))
+LiveAgrees == /\ (Ev.res = ROk) = (res' = ROk)
+              /\ KnownIds(Ev.st)
+              /\ ImgOfProj(Ev.st) = Img(StateRec')
 TOp ==
     /\ cp = <<>> /\ Ev.i = Len(hist)
-    /\ KnownIds(Ev.st)
-    /\ LET s == StateOf(ImgOfProj(Ev.st)) IN
-       /\ hdr' = s.hdr /\ sampled' = s.sampled /\ pruned' = s.pruned /\ meta' = s.meta /\ res' = Ev.res
-       /\ ackd' = s /\ infl' = <<>>
-    /\ hist' = Append(hist, Ev) /\ habs' = Append(habs, StateOf(ImgOfProj(Ev.st)))
+    /\ ModelOp
+    /\ ackd' = StateRec' /\ infl' = <<>>
+    /\ hist' = Append(hist, Ev) /\ habs' = Append(habs, StateRec')
+    /\ IF LiveAgrees THEN TRUE ELSE PrintT(<<"OPDIFF", l>>)
     /\ UNCHANGED <<plan, file, cache, txc, root, D, cp>>
 TCrash ==
     /\ cp = <<>> /\ Ev.p >= hist[1].je
@@ -75,10 +91,8 @@ TCrash ==
     /\ UNCHANGED <<vars, plan, file, cache, txc, root, D, hist, habs>>
 \* the verdict on one crash image (g: the recovered tables)
 RecOK(g) ==
-    LET a == Acked(cp[1].p) IN
     /\ RecoveredOK(g, ackd, infl)                          \* C22
     /\ QueriesAgree(Ev.st, g)
-    /\ Ev.st = StAfter(a) \/ (infl # <<>> /\ Ev.st = StAfter(a + 1))
 \* Crash images are independent of each other: a rejected one is reported (its position is printed,
 \* the driver reads the REJECTED lines) and validation goes on with the next, so that one finding
 \* cannot hide another in the same history.
@@ -86,9 +100,8 @@ TRecovered ==
     /\ cp # <<>>
     /\ LET readable == Ev.ok = 1 /\ KnownIds(Ev.st)          \* reopening must succeed
            g == ImgOfProj(Ev.st)
-       IN IF readable /\ RecOK(g)
-          THEN hdr' = g.H /\ sampled' = g.R.sa /\ pruned' = g.R.pr /\ meta' = g.M /\ res' = ROk
-          ELSE PrintT(<<"REJECTED", l>>) /\ UNCHANGED vars
+       IN IF readable /\ RecOK(g) THEN TRUE ELSE PrintT(<<"REJECTED", l>>)
+    /\ UNCHANGED vars
     /\ cp' = <<>>
     /\ UNCHANGED <<ackd, infl, plan, file, cache, txc, root, D, hist, habs>>
 
